@@ -180,12 +180,21 @@ class ThreadSim:
 
         shared_lines = self._shared_lines
 
+        after_shared = [False]
+
         def local(frame, event, arg):
             if event == ("opcode" if opcode else "line"):
                 if frame.f_lineno in shared_lines(frame):
                     # the line about to run reads or writes module-level state that is shared by every thread of the process:
                     # the place where a pre-emption matters most (policy "marks" may take it)
                     self._marked = "shared-state"
+                    self.marks_seen += 1
+                    after_shared[0] = True
+                elif after_shared[0]:
+                    # ... and so is the instant right AFTER such a line ran: what it just published (an entry inserted before it is
+                    # filled, a flag set before the work is done) is visible to everybody now
+                    after_shared[0] = False
+                    self._marked = "after-shared-state"
                     self.marks_seen += 1
                 point(me)
             return local
